@@ -278,6 +278,30 @@ impl<'a> Engine<'a> {
         Dump { entries, queue, hits, misses }
     }
 
+    /// push `key` into the order queue at a pseudo-random position if it is neither stored nor queued
+    fn inject_orphan(&self, key: &str, pos_seed: u64) {
+        let ins = |q: &mut VecDeque<String>, stored: bool| {
+            if !stored && !q.iter().any(|k| k == key) {
+                let pos = (pos_seed as usize) % (q.len() + 1);
+                q.insert(pos, key.to_string());
+            }
+        };
+        match self {
+            Engine::Global(_) => {
+                let stored = G_MAP.read().contains_key(key);
+                ins(&mut G_ORDER.lock(), stored);
+            }
+            Engine::Thread(_) => {
+                let stored = T_MAP.with(|m| m.borrow().contains_key(key));
+                T_ORDER.with(|o| ins(&mut o.borrow_mut(), stored));
+            }
+            Engine::Async(_, m, o, _) => {
+                let stored = m.contains_key(key);
+                ins(&mut o.lock(), stored);
+            }
+        }
+    }
+
     fn apply(&self, op: &Op) -> String {
         match op {
             Op::Get(k) => {
@@ -347,6 +371,8 @@ fn wait_for_safe_subsecond() {
 }
 
 fn run_episode(cfg: &Cfg, fr_seed: u64, ops: &[Op], out: &mut impl Write) {
+    // every other episode (by its seed) gets orphan injection
+    let orphans = fr_seed % 2 == 1;
     let a_map: DashMap<String, (String, u64, u64)> = DashMap::new();
     let a_order: Mutex<VecDeque<String>> = Mutex::new(VecDeque::new());
     let a_stats = CacheStats::new();
@@ -386,6 +412,15 @@ fn run_episode(cfg: &Cfg, fr_seed: u64, ops: &[Op], out: &mut impl Write) {
             wait_for_safe_subsecond();
         }
         fastrand::seed(frs.next());
+        // Orphan queue keys (queued but not stored) are legal states of the real caches — concurrent use
+        // produces them and the code tolerates them (`popStored` skips them, the scans ignore them).  Sequential
+        // histories never create one, so the harness injects some: the per-step comparison starts from the
+        // dumped pre-state, so no model operation is needed for the injection itself.
+        if orphans && frs.below(12) == 0 {
+            let key = format!("k{}", frs.below(6));
+            let pos_seed = frs.next();
+            eng.inject_orphan(&key, pos_seed);
+        }
         let (t0, now_s) = eng.restamp(&ages);
         let pre = eng.dump(t0, now_s).render();
         let res = catch_unwind(AssertUnwindSafe(|| eng.apply(op)));
